@@ -3,6 +3,7 @@ package main
 import (
 	"fmt"
 	"go/ast"
+	"go/printer"
 	"go/token"
 	"strings"
 )
@@ -316,6 +317,9 @@ func (x *xtr) block(stmts []ast.Stmt, k func() string) string {
 		}
 		return joinLines(x.assign(t), rest())
 	case *ast.IncDecStmt, *ast.ExprStmt:
+		if es, ok := s.(*ast.ExprStmt); ok && x.isLogCall(es) {
+			return rest() // a logging call chain (spec.LogCalls): explicitly not translated
+		}
 		return joinLines(x.simpleStmt(s), rest())
 	case *ast.IfStmt:
 		return x.ifStmt(t, rest)
@@ -354,6 +358,22 @@ func (x *xtr) simpleStmt(s ast.Stmt) string {
 	}
 	x.bad(s, "statement %T in this position", s)
 	return ""
+}
+
+// an expression statement whose text starts with a prefix of spec.LogCalls
+func (x *xtr) isLogCall(es *ast.ExprStmt) bool {
+	if len(x.sp.LogCalls) == 0 {
+		return false
+	}
+	var b strings.Builder
+	printer.Fprint(&b, x.fset, es)
+	text := strings.Join(strings.Fields(b.String()), " ")
+	for _, p := range x.sp.LogCalls {
+		if strings.HasPrefix(text, p) {
+			return true
+		}
+	}
+	return false
 }
 
 // ---- if
@@ -825,6 +845,19 @@ func (x *xtr) assignTuple(t *ast.AssignStmt) string {
 	var rtys []*xty
 	var rs string
 	switch r := t.Rhs[0].(type) {
+	case *ast.TypeAssertExpr: // p, ok := v.(T) on a value of an opaque (interface) type: the abstract function of spec.Asserts
+		v := x.expr(r.X)
+		a, ok := x.asserts[exprText(r.Type)]
+		if v.ty.k != kOpaque || !ok || len(t.Lhs) != 2 || r.Type == nil {
+			x.bad(t, "type assertion (only the comma-ok form on an opaque value, with the target type listed in spec.Asserts)")
+		}
+		nv := strings.SplitN(a, "=", 2)
+		if nv[1] != v.ty.name {
+			x.bad(t, "type assertion on a value of type %s, spec.Asserts says %s", v.ty.name, nv[1])
+		}
+		tt := x.goTy(r.Type)
+		rtys = []*xty{tt, tBoolx}
+		rs = fmt.Sprintf("(match %s %s with | some v_ => (v_, true) | none => (%s, false))", nv[0], paren(v.s), x.zero(t, tt))
 	case *ast.IndexExpr: // v, ok := m[k]
 		m := x.expr(r.X)
 		if m.ty.k != kMap || len(t.Lhs) != 2 {
